@@ -106,8 +106,14 @@ def gen_mesh(rng):
         init = [rng.uniform(-1, 1) * s for _ in range(3)] + aa(1.0)
     c = {"k": "c07.mesh", "verts": verts, "faces": faces, "samples": samples, "disp": disp, "init": init, "mode": rng.choice(["point", "plane"]),
          "basin": basin, "deep": basin and deep, "kind": kind, "size": s, "timeout_ms": 60000}
-    if rng.random() < 0.4:
+    r = rng.random()
+    if r < 0.4:
         c["pre"] = [rng.uniform(-100, 100) * s for _ in range(3)] + aa(3.0)
+    elif r < 0.55 and basin:
+        # the guess is exactly a gimbal-lock pose (pitch +-pi/2 with a sizeable roll and yaw): the starting guess must survive
+        # the conversion to rotation-centred parameters
+        c["pre_inv_euler"] = [rng.uniform(-3, 3) * s for _ in range(3)] + [rng.uniform(-3, 3), rng.choice([-1, 1]) * math.pi / 2, rng.uniform(-3, 3)]
+        c["init"] = [0.0] * 6
     return c
 
 
@@ -124,7 +130,7 @@ def generate(rng, tier):
 def tag(c, r):
     res = r.get("result", {})
     st = "err" if res.get("err") else "panic" if res.get("panic") else "ok"
-    return "%s:%s:%s:%s%s:%s" % (c["k"], c["kind"], c.get("mode", "-"), ("deep" if c.get("deep") else "basin") if c["basin"] else "far", "+pre" if "pre" in c else "", st)
+    return "%s:%s:%s:%s%s:%s" % (c["k"], c["kind"], c.get("mode", "-"), ("deep" if c.get("deep") else "basin") if c["basin"] else "far", "+pre" if "pre" in c else "+gimbal" if "pre_inv_euler" in c else "", st)
 
 
 def T(p):
@@ -153,7 +159,7 @@ def oracle(c, r):
         return
     res = r["result"]
     s = c["size"]
-    what = "%s alignment to a %s (size %r, %d points, displacement %r, guess %r%s)" % ("2D" if k == "c07.curve" else "3D " + c["mode"] + "-mode", c["kind"], s, len(r["points"]), c["disp"], c["init"], ", scanned points moved further by %r and the guess composed with the inverse" % c["pre"] if "pre" in c else "")
+    what = "%s alignment to a %s (size %r, %d points, displacement %r, guess %r%s)" % ("2D" if k == "c07.curve" else "3D " + c["mode"] + "-mode", c["kind"], s, len(r["points"]), c["disp"], c["init"], ", scanned points moved further by %r and the guess composed with the inverse" % c["pre"] if "pre" in c else ", guess = translation + Euler angles %r (gimbal-lock pose), scanned points moved accordingly" % c["pre_inv_euler"] if "pre_inv_euler" in c else "")
     if res.get("panic"):
         yield ("align-panic", what + " panicked")
         return
